@@ -71,7 +71,8 @@ type run struct {
 	nAdopt, nRefuse int
 	failed          bool
 	cast            map[int][]castVote
-	sigSuffix       string // appended to the two-commits signature by schedule families that name their mechanism
+	byzVotes        map[int][]*bft.Message // replica votes that reached a Byzantine replica (it may assemble its own certificates)
+	sigSuffix       string                 // appended to the two-commits signature by schedule families that name their mechanism
 }
 
 func newRun(o sink, name string, cfg bftsim.Config) *run {
@@ -397,6 +398,12 @@ func (r *run) deliver(e *bftsim.Envelope) string {
 	before := lockOf(s, e.To)
 	honest := !s.IsByz[e.To]
 	m, err := s.DeliverMsg(e)
+	if !honest && (e.Kind == "PROPOSE_VOTE" || e.Kind == "PRECOMMIT_VOTE") {
+		if r.byzVotes == nil {
+			r.byzVotes = map[int][]*bft.Message{}
+		}
+		r.byzVotes[e.To] = append(r.byzVotes[e.To], e.Msg)
+	}
 	code := ""
 	if err != nil {
 		code = fmt.Sprint(err.Code())
